@@ -580,10 +580,25 @@ CTX_PROBES = [
 ]
 
 
+CTX_PREFIX += ["export const g9 = () => { return 1 };\n", "const h9 = (p) => { const k = p; return k };\n",
+               "g(() => { foo = 1 });\n"]
+
+
 def gen_ctx_cases(seed, n, start_id=0):
     """(prefix, JSX statement, suffix) against the same statement alone: `src` is the composed
     module, `src_alt` the module with the statement only"""
     out = []
+    # deterministic part: a probe that requests a declaration (a temporary, a captured copy, a
+    # helper) beside every context statement, before it and after it
+    for probe in ["<Comp>{fn()}</Comp>", "<_Fragment>{foo}t</_Fragment>", "<Card title=\"x\">{a}</Card>"]:
+        for other in CTX_PREFIX:
+            for before in (True, False):
+                site = "const __site = " + probe + ";\n"
+                src = PROLOGUE + (other + site if before else site + other)
+                out.append({"id": start_id + len(out), "src": src, "src_alt": PROLOGUE + site, "syntax": "jsx",
+                            "options": json.dumps({"optimize": len(out) % 2 == 0}), "stream": "ctx", "keep_json": True,
+                            "feat": ["ctxpair"]})
+    start_id += len(out)
     for i in range(n):
         g = Gen(Rng(seed * 700001 + i))
         g.nojsx = True
@@ -709,6 +724,19 @@ def gen_matrix_cases(start_id=0):
         for host in ["input", "Comp", "div"]:
             add("<%s v-custom={%s} />" % (host, value), k); k += 1
             add("<%s v-model={%s} />" % (host, value), k); k += 1
+    # repeated class / style / listeners closed by a spread; a lone spread child; conditionals with constant branches
+    for pre in ['class="a" class={b}', 'style="color: red" style={foo.bar}', "onClick={fn} onClick={g()}",
+                'class="a" class={b} style="color: red" style={foo.bar}']:
+        for host in ["div", "Comp"]:
+            add("<%s %s {...y} id=\"c\" />" % (host, pre), k); k += 1
+            add("<%s title=\"t\" %s {...foo.bar} />" % (host, pre), k); k += 1
+    for host in ["Comp", "NS.Item", "Unknown", "div", "ul", "KeepAlive"]:
+        for ch in ["{...fn()}", "{...foo}", "{/* c */}{...g()}", "{...foo.bar}", " \n {...val}\n "]:
+            add("<%s>%s</%s>" % (host, ch, host), k); k += 1
+    for host in ["li", "Comp"]:
+        for at in ["class={a ? 'tab on' : 'tab'} id={b}", "kind={a ? 'error' : 'ok'} count={b}", "ref={foo} style={a ? 'x' : 'y'}",
+                   "tabindex={-1} id={b}", "colspan={1 + 1} title={a}", "value={(0)} class={b}", "data-x={a ? 1 : b} id={val}"]:
+            add("<%s %s>x</%s>" % (host, at, host), k); k += 1
     # attributes written after v-models keep their places
     for vm in ['[[val, "a"], [b, "b"]]', '[[val, "a"]]', "[[val]]"]:
         add("<Comp first={fn()} v-models={%s} second={g()} third={h()} fourth={fn(a)} />" % vm, k); k += 1
@@ -1288,8 +1316,33 @@ def gen_atom_cases(start_id=0):
     return out
 
 
+def gen_default_cases(start_id=0):
+    """every function-ish prop type x every non-literal default form (C18): deterministic"""
+    out = []
+    types = [("((n: number) => string) | string", {"function", "string"}), ("string | (() => void)", {"function", "string"}),
+             ("(() => void)", {"function"}), ("Function", {"function"}), ("Function | number", {"function", "number"}),
+             ("string", {"string"}), ("{ (): void } | string", {"function", "string"})]
+    forms = [("foo.bar", "expr"), ("fn()", "expr"), ("() => 1", "fnvalue"), ("function () { return 2 }", "fnvalue"),
+             (None, "shorthand"), ("undefined", "expr"), ("'s'", "literal")]
+    for ty, kinds in types:
+        for v, kind in forms:
+            item = "msg" if v is None else "msg: %s" % v
+            src = "\n".join(["import { defineComponent, SetupContext } from 'vue';",
+                             "let Comp2; const base = {}; const props = {}; const dflt = {}; const dyn = 'k'; const msg = 1; function makeOpts() { return {} } const foo = { bar: 1 };",
+                             TYPE_PRELUDE,
+                             "export default defineComponent((props: { msg?: %s; other: number } = { %s }) => () => null);" % (ty, item)]) + "\n"
+            truth = {"props": [["msg", False, sorted(kinds), "prop", ty, []], ["other", True, ["number"], "prop", "number", []]],
+                     "emits": [], "augmentable": True, "prov": "named", "first": "typed", "second": "none", "setup": "arrow", "optarg": None,
+                     "spreadargs": False, "declkind": 4,
+                     "defaults": {"form": "static", "per_key": {"msg": [kind, "msg" if v is None else v]}}, "getter_in_partial": False}
+            out.append({"id": start_id + len(out), "src": src, "syntax": "tsx", "options": '{"resolveType": true}', "stream": "types",
+                        "feat": ["default-sweep"], "truth": truth})
+    return out
+
+
 def gen_types_cases(seed, n, start_id=0):
     out = gen_atom_cases(start_id)
+    out += gen_default_cases(start_id + len(out))
     start_id += len(out)
     for i in range(n):
         g = TGen(Rng(seed * 7368787 + i))
